@@ -7,6 +7,7 @@ func DropExcess(in <-chan any) <-chan any {
 	out := make(chan any)
 	go func() {
 		defer close(out)
+		defer verifAt("lossy.exit", out)
 		var message any
 		hasMessage := false
 		for {
@@ -18,10 +19,12 @@ func DropExcess(in <-chan any) <-chan any {
 					}
 					// replace the buffered message, discarding the old one
 					message = newMessage
+					verifAt("lossy.in", out, in)
 
 				case out <- message:
 					// message sent successfully
 					hasMessage = false
+					verifAt("lossy.out", out, in)
 				}
 			} else {
 				newMessage, ok := <-in
@@ -30,6 +33,7 @@ func DropExcess(in <-chan any) <-chan any {
 				}
 				message = newMessage
 				hasMessage = true
+				verifAt("lossy.in", out, in)
 			}
 		}
 	}()
